@@ -29,12 +29,32 @@ RULE = ("one case = one Saml2Client (one configuration) consuming a sequence of 
         "KeyInfo}.  (D) seeded random sequences (quick 120, thorough 2000; 6-12 messages) over the full product of all "
         "dimensions incl. 5 ways of corrupting (SignatureValue, DigestValue, NameID, attribute value, Response envelope / "
         "content inside the signed assertion), message content drawn from a pool of 2 per sequence so that IDs and "
-        "signatures collide.  Signature states are real: RSA through the xmlsec1 stand-in, corruption by byte edits.  "
+        "signatures collide.  (E) shape of the ds:Signature (round 3): per signature the list of Reference targets {own ID, "
+        "ANOTHER element of the same type parked in the document (Advice / Extensions / StatusDetail: signature wrapping), "
+        "whole document (URI=''), no URI attribute, xpointer to own ID, '#', dangling ID, external URI; pairs of them} x "
+        "CanonicalizationMethod {exc-c14n, #WithComments, inclusive} x Transform list (14 lists of length 0-3 over "
+        "{enveloped, exc-c14n, #WithComments, inclusive}) x ds:Object x second ds:Signature child {none, before, after}: "
+        "quick = every one-dimension deviation from the standard form + the pairs around wrapping (49 shapes) x signed "
+        "element {Response, assertion} x 3 option settings (assertion: plain and encrypted) + under the KeyInfo opt-out; "
+        "thorough = full product (3276 shapes x 2 elements); (D) draws a random shape for 25% of its signatures.  "
+        "Signature states are real: RSA through the xmlsec1 stand-in, corruption by byte edits.  "
         "non-trivial = distinct (configuration, abstract message sequence) other than (defaults, Valid, Absent, plain, POST)")
 TRUSTED = ["xmlsec1 stand-in (sign/verify/encrypt/decrypt)", "renderer harness/render.py",
            "translator harness/c01.py:regenerate_tables (AST of client_base.Base.__init__ attribute_defaults and of "
            "config.Config.__init__ only_use_keys_in_metadata)",
-           "memo of saml2.cryptography.asymmetric.load_pem_private_key by PEM bytes (fresh SP per sequence; as the stand-in does)"]
+           "memo of saml2.cryptography.asymmetric.load_pem_private_key by PEM bytes (fresh SP per sequence; as the stand-in does)",
+           "translator v2 harness/py2coq2.py + coq/theories/Base/Py2.v (source text -> Gallina, fail-closed; not modelled: "
+           "aliasing of mutable objects, set order, Unicode case mapping, generators' laziness), used by "
+           "harness/c01.py:regenerate_tables for sigver.py:SecurityContext.correctly_signed_response, "
+           "response.py:AuthnResponse._assertion, response.py:AuthnResponse.__init__, client_base.py:Base.__init__ "
+           "(coq/gen/C01Src2.v) and, after the three syntactic rewrites of harness/c01.py:_Desugar (try/finally with "
+           "attribute-restoring finally blocks and no return/break/continue inside -> except BaseException: F; raise + F; "
+           "f(.., **kwargs) -> f(.., kwargs); the logging-only `if \"..\" in f\"{err}\"` inside a handler dropped), for "
+           "entity.py:Entity._parse_response and client_base.py:Base.parse_authn_request_response (coq/gen/C01Src2p.v); "
+           "theorems c01_source2_*; the translation specs (external calls as extra arguments; exception class parents "
+           "EXC_PARENTS, compared with the live classes on every run); in C01/Source2.v: the encodings, the functions ext_* "
+           "standing for the external calls in the theorems proved by evaluation, and Python's keyword binding "
+           "(call_parse_response, call_authn_response_init)"]
 ASSUMPTIONS = ["everything but the signatures and the Issuer elements is valid (status, times, audience, InResponseTo)",
                "RSA/AES behave ideally (real RSA is executed; the model treats verification as a boolean)",
                "federation facts of harness/world.py (the IdP publishes idp and idp2 for signing and idpenc for encryption "
@@ -89,15 +109,251 @@ def regenerate_tables(ctx):
     defaults = {k: found[k] for k in want}
     defaults["only_use_keys_in_metadata"] = only[0]
     changed = common.write_if_changed(os.path.join(common.GEN, "C01Tables.v"), "\n".join(lines) + "\n")
-    return {"file": "coq/gen/C01Tables.v", "defaults": defaults, "changed": changed,
-            "obligations": 1, "discharged": 1}
+    info = {"file": "coq/gen/C01Tables.v", "defaults": defaults, "changed": changed, "obligations": 1, "discharged": 1}
+    # translator v2: the decision functions of the anchored code as they read NOW
+    from harness import py2coq2
+
+    src2 = py2coq2.regenerate(os.path.join(common.GEN, "C01Src2.v"), source2_items())
+    src2p = regenerate_desugared(os.path.join(common.GEN, "C01Src2p.v"))
+    info["changed"] = bool(changed or src2["changed"] or src2p["changed"])
+    info["obligations"] += src2["obligations"] + src2p["obligations"]
+    info["discharged"] += src2["discharged"] + src2p["discharged"]
+    info["untranslatable"] = list(src2["untranslatable"]) + list(src2p["untranslatable"])
+    info["files"] = ["coq/gen/C01Tables.v", "coq/gen/C01Src2.v", "coq/gen/C01Src2p.v"]
+    info["source2"] = {"C01Src2.v": src2, "C01Src2p.v": src2p}
+    info["functions"] = SOURCE2_FUNCTIONS
+    info["source_theorems"] = ["c01_source2_* (C01/Property.v, proofs in C01/Source2.v): each translated function applied to "
+                               "the encoded model input equals the encoded output of the model function it mirrors"]
+    return info
+
+
+# ---------------------------------------------------------------------------- translator v2 (source tie)
+SOURCE2_FUNCTIONS = ["sigver.py:SecurityContext.correctly_signed_response", "response.py:AuthnResponse._assertion",
+                     "response.py:AuthnResponse.__init__", "client_base.py:Base.__init__",
+                     "entity.py:Entity._parse_response (desugared)", "client_base.py:Base.parse_authn_request_response (desugared)"]
+EXC_PARENTS = {"SAMLError": ["Exception"], "SigverError": ["SAMLError", "Exception"],
+               "SignatureError": ["SigverError", "SAMLError", "Exception"],
+               "MissingKey": ["SigverError", "SAMLError", "Exception"], "VerificationError": ["SAMLError", "Exception"],
+               "UnsolicitedResponse": ["SAMLError", "Exception"], "StatusError": ["SAMLError", "Exception"],
+               "UnknownBinding": ["SAMLError", "Exception"], "UnravelError": ["Exception"]}
+LOGGING = ["logger.debug", "logger.info", "logger.error", "logger.exception", "logger.warning", "_warn"]
+
+
+def check_exc_parents():
+    """EXC_PARENTS restates the class hierarchy of the live code (what `except SigverError` catches depends on it)."""
+    import saml2
+    import saml2.response
+    import saml2.sigver
+    import saml2.entity
+
+    live = {"SAMLError": saml2.SAMLError, "SigverError": saml2.sigver.SigverError, "SignatureError": saml2.sigver.SignatureError,
+            "MissingKey": saml2.sigver.MissingKey, "VerificationError": saml2.response.VerificationError,
+            "UnsolicitedResponse": saml2.response.UnsolicitedResponse, "StatusError": saml2.response.StatusError,
+            "UnknownBinding": saml2.entity.UnknownBinding, "UnravelError": saml2.entity.UnravelError}
+    for name, cls in live.items():
+        got = [c.__name__ for c in cls.__mro__[1:] if c.__name__ in EXC_PARENTS or c.__name__ == "Exception"]
+        if got != EXC_PARENTS[name]:
+            raise RuntimeError("exception hierarchy of the live code differs from harness/c01.py:EXC_PARENTS: %s has %r" % (name, got))
+
+
+def _kw(name, expected, a, n, kw):
+    from harness import py2coq2
+
+    if len(a) != n or sorted(kw) != sorted(expected):
+        raise py2coq2.Untranslatable("%s: %d positional and keyword arguments %s, expected %d and %s" % (
+            name, len(a), sorted(kw), n, sorted(expected)))
+
+
+def _call_status_response_init(a, kw):
+    _kw("StatusResponse.__init__", ["asynchop", "conv_info"], a, 4, kw)
+    return "(status_response_init (PList [%s]))" % "; ".join(list(a) + [kw["asynchop"], kw["conv_info"]])
+
+
+def _call_entity_init(a, kw):
+    _kw("Entity.__init__", ["msg_cb"], a, 5, kw)
+    return "(entity_init (PList [%s]))" % "; ".join(list(a) + [kw["msg_cb"]])
+
+
+def _call_endpoint(a, kw):
+    _kw("self.config.endpoint", ["binding", "context"], a, 1, kw)
+    return "(endpoint v_self %s %s %s)" % (a[0], kw["binding"], kw["context"])
+
+
+def _call_loads(a, kw):
+    _kw("response.loads", ["origxml"], a, 2, kw)
+    return "(loads v_response %s %s %s)" % (a[0], a[1], kw["origxml"])
+
+
+def _call_service_urls(a, kw):
+    _kw("self.service_urls", ["binding"], a, 0, kw)
+    return "(service_urls v_self %s)" % kw["binding"]
+
+
+def source2_items():
+    """(source file, qualified name, translation spec) of the functions that C01/Source2.v proves equal to the model.
+    External calls (XML parsing, _check_signature, the other checks of an assertion, object construction, configuration
+    lookups) are extra parameters of the Gallina definitions."""
+    sdir = os.path.join(env.SRC, "saml2")
+    sig_, rsp, cb = (os.path.join(sdir, f) for f in ("sigver.py", "response.py", "client_base.py"))
+    return [
+        (sig_, "SecurityContext.correctly_signed_response", {
+            "name": "src2_correctly_signed_response",
+            "params": ["self", "decoded_xml", "must", "origdoc", "only_valid_cert", "require_response_signature", "kwargs"],
+            "extra_params": [("parse_resp", "pyval -> pyval"), ("check_sig", "pyval -> pyval -> pyval -> pyval -> pyval"),
+                             ("class_name_ext", "pyval -> pyval")],
+            "exc_parents": EXC_PARENTS,
+            "calls": {"samlp.any_response_from_string": lambda a: "(parse_resp %s)" % a[0],
+                      "self._check_signature": lambda a: "(check_sig %s %s %s %s)" % tuple(a),
+                      "class_name": lambda a: "(class_name_ext %s)" % a[0]}}),
+        (rsp, "AuthnResponse._assertion", {
+            "name": "src2_assertion", "params": ["self", "assertion", "verified"],
+            "extra_params": [("check_sig3", "pyval -> pyval -> pyval -> pyval"), ("class_name_ext", "pyval -> pyval"),
+                             ("issuer_ext", "pyval -> pyval"), ("authn_statement_ok_ext", "pyval -> pyval"),
+                             ("condition_ok_ext", "pyval -> pyval"), ("get_subject_ext", "pyval -> pyval")],
+            "exc_parents": EXC_PARENTS, "ignore_calls": LOGGING,
+            "calls": {"self.sec.check_signature": lambda a: "(check_sig3 %s %s %s)" % tuple(a),
+                      "class_name": lambda a: "(class_name_ext %s)" % a[0],
+                      "self.issuer": lambda a: "(issuer_ext v_self)",
+                      "self.authn_statement_ok": lambda a: "(authn_statement_ok_ext v_self)",
+                      "self.condition_ok": lambda a: "(condition_ok_ext v_self)",
+                      "self.get_subject": lambda a: "(get_subject_ext v_self)"}}),
+        (rsp, "AuthnResponse.__init__", {
+            "name": "src2_authn_response_init",
+            "params": ["self", "sec_context", "attribute_converters", "entity_id", "return_addrs", "outstanding_queries",
+                       "timeslack", "asynchop", "allow_unsolicited", "test", "allow_unknown_attributes",
+                       "want_assertions_signed", "want_assertions_or_response_signed", "want_response_signed", "conv_info", "kwargs"],
+            "extra_params": [("status_response_init", "pyval -> pyval")], "returns_state": ["self"],
+            "calls": {"StatusResponse.__init__": _call_status_response_init}}),
+        (cb, "Base.__init__", {
+            "name": "src2_base_init",
+            "params": ["self", "config", "identity_cache", "state_cache", "virtual_organization", "config_file", "msg_cb"],
+            "extra_params": [("entity_init", "pyval -> pyval"), ("population", "pyval -> pyval"), ("lock", "pyval"),
+                             ("cfg_getattr", "pyval -> pyval -> pyval -> pyval")],
+            "returns_state": ["self"], "ignore_calls": LOGGING,
+            "calls": {"Entity.__init__": _call_entity_init, "Population": lambda a: "(population %s)" % a[0],
+                      "threading.Lock": lambda a: "lock",
+                      "self.config.getattr": lambda a: "(cfg_getattr v_self %s %s)" % tuple(a)}}),
+    ]
+
+
+class _Desugar(ast.NodeTransformer):
+    """Three syntactic rewrites that bring Entity._parse_response and Base.parse_authn_request_response into the
+    subset of py2coq2 (each applies only to the exact shape described; anything else is left alone and then refused
+    by the translator: fail-closed).
+    (1) try B except.. else E finally F, with F a list of `name.attr = name` assignments and no return / break /
+        continue anywhere in B, the handlers and E  ==>  try: (try B except.. else E) except BaseException: F; raise
+        followed by F.
+    (2) f(args, **name)  ==>  f(args, name): the dict travels as one more positional argument of the external call.
+    (3) inside `except ... as e`, a statement `if "<const>" in f"{e}": <logger calls only>` is dropped (logging)."""
+
+    def visit_Try(self, node):
+        self.generic_visit(node)
+        if not node.finalbody:
+            return node
+        ok_final = all(isinstance(s, ast.Assign) and len(s.targets) == 1 and isinstance(s.targets[0], ast.Attribute)
+                       and isinstance(s.targets[0].value, ast.Name) and isinstance(s.value, ast.Name) for s in node.finalbody)
+        jumps = [n for part in (node.body, node.handlers, node.orelse) for s in part for n in ast.walk(s)
+                 if isinstance(n, (ast.Return, ast.Break, ast.Continue))]
+        if not ok_final or jumps:
+            return node
+        inner = ast.Try(body=node.body, handlers=node.handlers, orelse=node.orelse, finalbody=[])
+        outer = ast.Try(body=[inner], handlers=[ast.ExceptHandler(
+            type=ast.Name(id="BaseException", ctx=ast.Load()), name=None,
+            body=copy.deepcopy(node.finalbody) + [ast.Raise(exc=None, cause=None)])], orelse=[], finalbody=[])
+        return [ast.copy_location(outer, node)] + node.finalbody
+
+    def visit_Call(self, node):
+        self.generic_visit(node)
+        star = [k for k in node.keywords if k.arg is None]
+        if len(star) == 1 and node.keywords[-1] is star[0] and isinstance(star[0].value, ast.Name) and \
+                not any(isinstance(a, ast.Starred) for a in node.args):
+            node.args = node.args + [star[0].value]
+            node.keywords = node.keywords[:-1]
+        return node
+
+    def visit_ExceptHandler(self, node):
+        self.generic_visit(node)
+        if not node.name:
+            return node
+        from harness import py2coq2
+
+        def log_only_if(s):
+            return (isinstance(s, ast.If) and not s.orelse and isinstance(s.test, ast.Compare) and len(s.test.ops) == 1
+                    and isinstance(s.test.ops[0], ast.In) and isinstance(s.test.left, ast.Constant)
+                    and isinstance(s.test.left.value, str) and isinstance(s.test.comparators[0], ast.JoinedStr)
+                    and all(isinstance(v, ast.FormattedValue) and isinstance(v.value, ast.Name) and v.value.id == node.name
+                            and v.conversion == -1 and v.format_spec is None for v in s.test.comparators[0].values)
+                    and all(isinstance(b, ast.Expr) and isinstance(b.value, ast.Call)
+                            and py2coq2._dotted(b.value.func) in LOGGING for b in s.body))
+        node.body = [s for s in node.body if not log_only_if(s)] or [ast.Pass()]
+        return node
+
+
+BIND = {"POST": world.BINDING_HTTP_POST, "Redirect": world.BINDING_HTTP_REDIRECT, "SOAP": world.BINDING_SOAP, "PAOS": world.BINDING_PAOS}
+
+
+def desugared_items():
+    sdir = os.path.join(env.SRC, "saml2")
+    return [
+        (os.path.join(sdir, "entity.py"), "Entity._parse_response", {
+            "name": "src2_parse_response",
+            "params": ["self", "xmlstr", "response_cls", "service", "binding", "outstanding_certs", "kwargs"],
+            "extra_params": [("endpoint", "pyval -> pyval -> pyval -> pyval -> pyval"), ("mk_response", "pyval -> pyval -> pyval -> pyval"),
+                             ("unravel", "pyval -> pyval -> pyval -> pyval -> pyval"),
+                             ("loads", "pyval -> pyval -> pyval -> pyval -> pyval"), ("verify", "pyval -> pyval -> pyval")],
+            "exc_parents": EXC_PARENTS, "ignore_calls": LOGGING,
+            "globals": {"BINDING_SOAP": "(PStr %s)" % cq(BIND["SOAP"]), "BINDING_PAOS": "(PStr %s)" % cq(BIND["PAOS"]),
+                        "BINDING_HTTP_REDIRECT": "(PStr %s)" % cq(BIND["Redirect"]), "BINDING_HTTP_POST": "(PStr %s)" % cq(BIND["POST"])},
+            "calls": {"self.config.endpoint": _call_endpoint,
+                      "response_cls": lambda a: "(mk_response v_response_cls %s %s)" % tuple(a),
+                      "self.unravel": lambda a: "(unravel v_self %s %s %s)" % tuple(a),
+                      "response.loads": _call_loads,
+                      "response.verify": lambda a: "(verify v_response %s)" % a[0]}}),
+        (os.path.join(sdir, "client_base.py"), "Base.parse_authn_request_response", {
+            "name": "src2_parse_authn_request_response",
+            "params": ["self", "xmlstr", "binding", "outstanding", "outstanding_certs", "conv_info"],
+            "extra_params": [("service_urls", "pyval -> pyval -> pyval"),
+                             ("parse_response_ext", "pyval -> pyval -> pyval -> pyval -> pyval -> pyval -> pyval"),
+                             ("add_info", "pyval -> pyval -> pyval"), ("session_info", "pyval -> pyval")],
+            "exc_parents": EXC_PARENTS, "ignore_calls": LOGGING,
+            "globals": {"AuthnResponse": '(PObj [("__class__", PStr "type"); ("msgtype", PStr "authn_response")])'},
+            "classes": {"AuthnResponse": ["AuthnResponse"]},
+            "calls": {"self.service_urls": _call_service_urls,
+                      "self._parse_response": lambda a: "(parse_response_ext v_self %s %s %s %s %s)" % tuple(a),
+                      "self.users.add_information_about_person": lambda a: "(add_info v_self %s)" % a[0],
+                      "resp.session_info": lambda a: "(session_info v_resp)"}}),
+    ]
+
+
+def regenerate_desugared(gen_path):
+    """Entity._parse_response and Base.parse_authn_request_response -> coq/gen/C01Src2p.v, through
+    py2coq2.translate_def after _Desugar (fail-closed like py2coq2.regenerate: what cannot be translated becomes a
+    poisoned definition)."""
+    from harness import py2coq2
+
+    out, failed, names = [py2coq2.HEADER], [], []
+    for path, q, spec in desugared_items():
+        names.append(q)
+        try:
+            with open(path) as f:
+                fn = py2coq2.find_function(ast.parse(f.read()), q)
+            fn = ast.fix_missing_locations(_Desugar().visit(fn))
+            out.append(py2coq2.translate_def(fn, spec, "%s:%s (try/finally, f(.., **kwargs) and the logging-only test on the "
+                                                       "exception text rewritten by harness/c01.py:_Desugar)" % (path.split("/src/")[-1], q)))
+        except (py2coq2.Untranslatable, OSError, SyntaxError) as e:
+            failed.append("%s: %s" % (q, e))
+            out.append(py2coq2.poison(q, spec, str(e)))
+    changed = common.write_if_changed(gen_path, "\n".join(out))
+    return {"translated": names, "untranslatable": failed, "changed": changed, "obligations": len(names),
+            "discharged": len(names) - len(failed)}
 
 
 # ---------------------------------------------------------------------------- case format
 # case  = {"tag", "cfg": {"wr","wa","wor","only"}, "fresh": bool, "steps": [step]}
 # step  = legacy (round 1): {"legacy": True, "rs": SIGST, "as": SIGST, "enc", "b", "content_seed"}
 #       | {"rw": WHO, "aw": WHO, "rs": sig|None, "as": sig|None, "enc", "b", "seed"}
-# sig   = {"k": KEYS, "ki": KINFO, "c": None | HOW}
+# sig   = {"k": KEYS, "ki": KINFO, "c": None | HOW | "shape", ["sh": shape]}      (no "sh" = the standard form)
+# shape = {"refs": [REF...], "c14n": C14N, "tr": [TR...], "obj": bool, "x": None|"before"|"after", "place": where ROther is parked}
 WHO = ["idp", "other", "unknown", "none"]
 KEYS = ["idp", "idp2", "idpenc", "other", "sp", "attacker"]
 KINFO = ["none", "signer", "idp"]
@@ -254,8 +510,12 @@ def random_sig(rng, hows, enc, allow_inner):
 
 def gen_random(ctx, rng):
     """(D) random sequences over the full product; content from a pool of 2 per sequence."""
+    return gen_random_n(rng, 2000 if ctx.thorough else 120)
+
+
+def gen_random_n(rng, count):
     cases = []
-    for _ in range(2000 if ctx.thorough else 120):
+    for _ in range(count):
         cfg = {"wr": rng.choice(OPTV), "wa": rng.choice(OPTV), "wor": rng.choice(OPTV),
                "only": rng.choice(["unset", "unset", True, False, False, "true"])}
         pool = [rng.randrange(1 << 30), rng.randrange(1 << 30)]
@@ -274,10 +534,147 @@ def gen_random(ctx, rng):
     return cases
 
 
+# ---------------------------------------------------------------------------- (E) shapes of ds:Signature
+REFS = ["own", "other", "empty", "nouri", "xptr", "bare", "dangling", "ext"]
+REF_PAIRS = [["own", "other"], ["other", "own"], ["own", "own"], ["own", "xptr"], ["other", "other"]]
+C14NS = ["exc", "excwc", "inc"]
+TRS = [["env", "exc"], ["env"], ["exc", "env"], ["env", "excwc"], ["excwc", "env"], ["exc"], [], ["env", "inc"], ["inc"],
+       ["env", "env"], ["exc", "exc"], ["env", "exc", "exc"], ["env", "exc", "excwc"], ["inc", "env"]]
+SELF_COVERING = ("own", "xptr", "empty", "nouri")
+STD_SHAPE = {"refs": ["own"], "c14n": "exc", "tr": ["env", "exc"], "obj": False, "x": None}
+
+
+def shape(**kw):
+    d = copy.deepcopy(STD_SHAPE)
+    d.update(kw)
+    return d
+
+
+def shapes_quick():
+    """Every deviation from the standard form in ONE dimension, and the pairs in the neighbourhood of wrapping."""
+    out = [shape()]
+    out += [shape(refs=[t]) for t in REFS[1:]] + [shape(refs=p) for p in REF_PAIRS]
+    out += [shape(c14n=c) for c in C14NS[1:]] + [shape(tr=t) for t in TRS[1:]]
+    out += [shape(obj=True), shape(x="before"), shape(x="after")]
+    for rf in (["other"], ["xptr"], ["empty"], ["own", "other"], ["other", "own"]):
+        out += [shape(refs=rf, x="before"), shape(refs=rf, x="after")]
+    out += [shape(refs=["other"], tr=t) for t in (["env"], ["exc", "env"], ["exc"], [])]
+    out += [shape(refs=["other"], obj=True), shape(refs=["other"], c14n="inc"), shape(refs=["xptr"], tr=["env"]),
+            shape(refs=["other"], c14n="excwc", tr=["excwc", "env"])]
+    return out
+
+
+def shapes_all():
+    return [shape(refs=rf, c14n=c, tr=t, obj=o, x=x) for rf in [[t] for t in REFS] + REF_PAIRS for c in C14NS for t in TRS
+            for o in (False, True) for x in (None, "before", "after")]
+
+
+def normalise(st):
+    """Make the abstract flag `corrupt` truthful for shaped signatures: what cannot be intact by construction is
+    marked c="shape" (no edit is made), and edits that would not touch what the signature digests are replaced."""
+    for elem, g in (("R", st["rs"]), ("A", st["as"])):
+        if not g or not g.get("sh"):
+            continue
+        sh = g["sh"]
+        sh.setdefault("place", "status" if elem == "R" else "advice")
+        if elem == "R" and st["enc"]:
+            sh["place"] = "status"           # the assertion's Advice is not readable when the Response is verified
+        covering = [t for t in sh["refs"] if t in SELF_COVERING]
+        broken = any(t in ("bare", "dangling", "ext") for t in sh["refs"]) or (covering and "env" not in sh["tr"]) or \
+            (elem == "A" and any(t in ("empty", "nouri") for t in sh["refs"]) and (st["enc"] or st["rs"]))
+        if g["c"] in ("nameid", "attr", "inner", "envelope") and not covering:
+            g["c"] = "sigvalue"
+        if g["c"] == "inner":
+            g["c"] = "envelope"
+        if broken and not g["c"]:
+            g["c"] = "shape"
+    return st
+
+
+def gen_shapes(ctx, rng):
+    """(E) which ds:Signature shapes verify: shape x signed element x options x {plain, encrypted}."""
+    shapes = shapes_all() if ctx.thorough else shapes_quick()
+    cfgs = {"R": [(True, False, False), (False, False, True), (False, "unset", "unset")],
+            "A": [(False, True, "unset"), (False, False, True), (False, False, False)]}
+    cells = []
+    for elem in ("R", "A"):
+        for n, sh in enumerate(shapes):
+            for j, opts in enumerate(cfgs[elem]):
+                if ctx.thorough and j != n % 3:
+                    continue
+                for enc in ((False, True) if elem == "A" and j == 0 and not ctx.thorough else (rng.random() < 0.3,)):
+                    cells.append((opts, "unset", elem, sh, enc, "idp", "none", "idp"))
+            if not ctx.thorough or n % 5 == 0:
+                # the documented opt-out: an issuer without metadata vouching for its own key
+                cells.append(((elem == "R", elem == "A", "unset"), False, elem, sh, rng.random() < 0.3, "attacker", "signer", "unknown"))
+                if ctx.thorough or n % 3 == 0:
+                    cells.append(((False, False, True), False, elem, sh, False, "idp", "signer", "idp"))
+    by_cfg = {}
+    for opts, only, elem, sh, enc, k, ki, who in cells:
+        by_cfg.setdefault((opts, only), []).append((elem, sh, enc, k, ki, who))
+    cases = []
+    for (opts, only), part in by_cfg.items():
+        rng.shuffle(part)
+        cfg = {"wr": opts[0], "wa": opts[1], "wor": opts[2], "only": only}
+        for i in range(0, len(part), 24):
+            steps = []
+            for elem, sh, enc, k, ki, who in part[i:i + 24]:
+                sh = copy.deepcopy(sh)
+                sh["place"] = rng.choice(["advice", "ext"]) if elem == "A" else rng.choice(["status", "advice"])
+                g = dict(sig(k, ki), sh=sh)
+                if rng.random() < 0.08:
+                    g["c"] = rng.choice(["sigvalue", "digest"])
+                steps.append(normalise(step(who, who, g if elem == "R" else None, g if elem == "A" else None, enc=enc,
+                                            b=rng.choice(["POST", "POST", "POST", "Redirect", "SOAP"]), seed=rng.randrange(1 << 30))))
+            cases.append(seq("shape-" + "".join(sorted({e for e, *_ in part[i:i + 24]})), cfg, steps))
+    return cases
+
+
+def random_shape(rng):
+    sh = shape()
+    for _ in range(rng.choice([1, 1, 2, 3])):
+        d = rng.randrange(5)
+        if d == 0:
+            sh["refs"] = rng.choice([[t] for t in REFS] + REF_PAIRS + [["other"]] * 4)
+        elif d == 1:
+            sh["c14n"] = rng.choice(C14NS)
+        elif d == 2:
+            sh["tr"] = rng.choice(TRS)
+        elif d == 3:
+            sh["obj"] = rng.random() < 0.5
+        else:
+            sh["x"] = rng.choice(["before", "after"])
+    return sh
+
+
 def generate(ctx):
     check_world()
+    check_exc_parents()
     rng = ctx.rng
-    return gen_legacy(ctx, rng) + gen_keys(ctx, rng) + gen_replay(ctx, rng) + gen_random(ctx, rng)
+    cases = gen_legacy(ctx, rng) + gen_keys(ctx, rng) + gen_replay(ctx, rng) + gen_random(ctx, rng)
+    # (E) uses its own stream so that the cases above stay the ones of the earlier rounds
+    rng2 = random.Random(rng.randrange(1 << 30))
+    return cases + gen_shapes(ctx, rng2) + gen_random_shapes(ctx, rng2)
+
+
+def gen_random_shapes(ctx, rng):
+    """(D'): random sequences as in (D), 25% of the signatures in a random shape."""
+    cases = []
+    for c in gen_random_n(rng, 400 if ctx.thorough else 24):
+        for st in c["steps"]:
+            for name in ("rs", "as"):
+                g = st[name]
+                if g and rng.random() < 0.25:
+                    g["sh"] = random_shape(rng)
+                    g["sh"]["place"] = rng.choice(["advice", "ext"]) if name == "as" else rng.choice(["status", "advice"])
+                    if g["c"] not in (None, "sigvalue", "digest"):
+                        g["c"] = rng.choice(["sigvalue", "digest"])
+            if st["rs"] and st["rs"]["c"] == "inner" and st["as"] and st["as"].get("sh"):
+                st["rs"]["c"] = "envelope"
+            normalise(st)
+        c["tag"] = "random-shapes"
+        cases.append(c)
+    return cases
 
 
 # ---------------------------------------------------------------------------- messages
@@ -367,9 +764,148 @@ def corrupt(xml, how):
     raise ValueError(how)
 
 
+# ---- shaped signatures (round 3)
+ALG = {"env": render.ENVELOPED, "exc": render.EXC_C14N, "excwc": render.EXC_C14N + "WithComments",
+       "inc": "http://www.w3.org/TR/2001/REC-xml-c14n-20010315"}
+EXTERNAL_URI = "https://sp.example.org/elsewhere.xml"
+OTHER_OF = {"a-1": "a-0", "r-1": "r-0"}
+
+
+def _ref_uri(t, own):
+    """URI written into the template that is SIGNED; bare / ext / dangling are rewritten afterwards."""
+    return {"own": "#" + own, "other": "#" + OTHER_OF[own], "empty": "", "nouri": None, "xptr": "#xpointer(id('%s'))" % own,
+            "bare": "", "dangling": "#" + OTHER_OF[own], "ext": "#" + own}[t]
+
+
+def shaped_template(own, sh, keyinfo=None, filled=False):
+    """ds:Signature in the given shape; filled=True: a complete signature with dummy values (never verifies)."""
+    tr = "".join('<ds:Transform Algorithm="%s"/>' % ALG[x] for x in sh["tr"])
+    trs = "<ds:Transforms>%s</ds:Transforms>" % tr if sh["tr"] else ""
+    refs = "".join('<ds:Reference%s>%s<ds:DigestMethod Algorithm="%s"/><ds:DigestValue>%s</ds:DigestValue></ds:Reference>' % (
+        render.attr("URI", _ref_uri(t, own)), trs, render.DIG_SHA256, "AAAA" if filled else "") for t in sh["refs"])
+    ki = ""
+    if keyinfo:
+        from harness import fixtures
+
+        ki = "<ds:KeyInfo><ds:X509Data><ds:X509Certificate>%s</ds:X509Certificate></ds:X509Data></ds:KeyInfo>" % (
+            fixtures.cert_b64(keyinfo[1]))
+    obj = "<ds:Object>carried along</ds:Object>" if sh["obj"] else ""
+    return ('<ds:Signature xmlns:ds="http://www.w3.org/2000/09/xmldsig#"><ds:SignedInfo><ds:CanonicalizationMethod '
+            'Algorithm="%s"/><ds:SignatureMethod Algorithm="%s"/>%s</ds:SignedInfo><ds:SignatureValue>%s</ds:SignatureValue>'
+            "%s%s</ds:Signature>" % (ALG[sh["c14n"]], render.SIG_SHA256, refs, "AAAA" if filled else "", ki, obj))
+
+
+def _own_signature_start(xml, own):
+    """Offset of the first ds:Signature after the start tag of the element with ID `own`."""
+    return re.compile(r"<(?:\w+:)?Signature[ >]").search(xml, xml.index('ID="%s"' % own)).start()
+
+
+def _rewrite_after_signing(xml, own, sh):
+    """The References that cannot be signed as they are meant: rewrite them in the signed message."""
+    refs = list(re.compile(r"<(?:\w+:)?Reference\b[^>]*>").finditer(xml, _own_signature_start(xml, own)))
+    for idx in reversed(range(len(sh["refs"]))):
+        t = sh["refs"][idx]
+        m = refs[idx]
+        if t == "bare":
+            assert 'URI=""' in m.group(0)
+            xml = xml[:m.start()] + m.group(0).replace('URI=""', 'URI="#"') + xml[m.end():]
+        elif t == "ext":
+            assert 'URI="#%s"' % own in m.group(0)
+            xml = xml[:m.start()] + m.group(0).replace('URI="#%s"' % own, 'URI="%s"' % EXTERNAL_URI) + xml[m.end():]
+    if "dangling" in sh["refs"]:
+        other = OTHER_OF[own]
+        assert xml.count('ID="%s"' % other) == 1
+        xml = xml.replace('ID="%s"' % other, 'ID="%s-gone"' % other, 1)
+    return xml
+
+
+def _sig_xml(own, g):
+    sh = g.get("sh") or STD_SHAPE
+    t = shaped_template(own, sh, _keyinfo(g))
+    if sh["x"] == "after":
+        t += shaped_template(own, STD_SHAPE, filled=True)
+    return t
+
+
+def _needs_other(g):
+    return bool(g and g.get("sh") and any(t in ("other", "dangling") for t in g["sh"]["refs"]))
+
+
+def build_shaped(st, memo):
+    """Like build_step, for messages in which a signature has a shape: the element that a Reference to "another
+    element" selects (Assertion a-0 / Response r-0, unsigned, otherwise genuine) is parked where the schema allows
+    it (Advice of the assertion, Extensions of the Response, StatusDetail); the signature is made over what its
+    References select - for ROther that is, byte for byte, the ds:Signature a genuine signed a-0 / r-0 carries."""
+    r = random.Random(st["seed"])
+    attrs = [("urn:oid:0.9.2342.19200300.100.1.3", render.NF_URI, "mail", ["a@example.org"])] + random_attrs(r)
+    a = spaccept.good_assertion(attributes=attrs, issuer=WHO_ID[st["aw"]] or "")
+    resp = spaccept.good_response(issuer=WHO_ID[st["rw"]], status=(render.STATUS_SUCCESS, None, "ok"))
+    if st["b"] == "Redirect":
+        resp["destination"] = world.SP_ACS_REDIRECT
+    rs, as_ = st["rs"], st["as"]
+
+    def parked_assertion(aid):
+        # no attributes: their xsi:type="xs:string" needs a prefix declaration that does not survive the
+        # re-serialisation of the stand-in when the element is kept as an uninterpreted extension element
+        o = spaccept.good_assertion(id=aid, attributes=None, issuer=WHO_ID[st["aw"]] or world.IDP_ID)
+        o["subject"] = dict(o["subject"], name_id="subject-0")
+        return render.assertion(o)
+
+    a0 = parked_assertion("a-0") if _needs_other(as_) else ""
+    r0 = ""
+    if _needs_other(rs):
+        r0 = render.response(dict(spaccept.good_response(id="r-0", issuer=WHO_ID[st["rw"]] or world.IDP_ID),
+                                  assertions_xml=[parked_assertion("a-00")]))
+    if as_:
+        a["sig_template"] = _sig_xml("a-1", as_)
+    advice = (a0 if a0 and as_["sh"]["place"] == "advice" else "") + (r0 if r0 and rs["sh"]["place"] == "advice" else "")
+    if advice:
+        a["advice"] = "<saml:Advice>%s</saml:Advice>" % advice
+    axml = render.assertion(a)
+    if st["aw"] == "none":
+        assert axml.count("<saml:Issuer></saml:Issuer>") == 1
+        axml = axml.replace("<saml:Issuer></saml:Issuer>", "", 1)
+    resp["assertions_xml"] = [axml]
+    if a0 and as_["sh"]["place"] == "ext":
+        resp["extensions"] = "<samlp:Extensions>%s</samlp:Extensions>" % a0
+    if rs:
+        resp["sig_template"] = _sig_xml("r-1", rs)
+    xml = render.response(resp)
+    if r0 and rs["sh"]["place"] == "status":
+        assert xml.count("</samlp:StatusMessage>") == 1 and r0.count("</samlp:StatusMessage>") == 0
+        i = xml.index("</samlp:StatusMessage>") + len("</samlp:StatusMessage>")
+        xml = xml[:i] + "<samlp:StatusDetail>%s</samlp:StatusDetail>" % r0 + xml[i:]
+
+    def finish(xml, own, g):
+        sh = g.get("sh")
+        if sh:
+            xml = _rewrite_after_signing(xml, own, sh)
+        if g["c"] and g["c"] != "shape":
+            xml = corrupt(xml, g["c"])
+        if sh and sh["x"] == "before":
+            i = _own_signature_start(xml, own)
+            xml = xml[:i] + shaped_template(own, STD_SHAPE, filled=True) + xml[i:]
+        return xml
+
+    if as_:
+        xml = render.sign_xml(xml, as_["k"], render.A_ELEM, "a-1")
+        xml = finish(xml, "a-1", as_)
+    if st["enc"]:
+        key = ("enc", xml)
+        if key not in memo:
+            memo[key] = render.encrypt_assertion_in_response(xml, "sp")
+        xml = memo[key]
+    if rs:
+        xml = render.sign_xml(xml, rs["k"], render.R_ELEM, "r-1")
+        xml = finish(xml, "r-1", rs)
+    return xml
+
+
 def build_step(st, memo):
     """Message of one step.  Everything but the encryption is deterministic, and the encryption is memoised
     per sequence: steps that share seed and structure share IDs, ciphertext and ds:Signature elements."""
+    if (st["rs"] and st["rs"].get("sh")) or (st["as"] and st["as"].get("sh")):
+        return build_shaped(st, memo)
     r = random.Random(st["seed"])
     attrs = [("urn:oid:0.9.2342.19200300.100.1.3", render.NF_URI, "mail", ["a@example.org"])] + random_attrs(r)
     a = spaccept.good_assertion(attributes=attrs, issuer=WHO_ID[st["aw"]] or "")
@@ -464,10 +1000,22 @@ def cq_optv(v):
     return {"unset": "Unset", True: "(B true)", False: "(B false)", "true": "StrTrue"}[v]
 
 
+CQ_REF = {"own": "ROwn", "other": "ROther", "empty": "REmpty", "nouri": "RNoUri", "xptr": "RXPtr", "bare": "RBare",
+          "dangling": "RDangling", "ext": "RExternal"}
+CQ_C14N = {"exc": "CExc", "excwc": "CExcWC", "inc": "CInc"}
+CQ_TR = {"env": "TEnv", "exc": "TExc", "excwc": "TExcWC", "inc": "TInc"}
+CQ_X = {None: "XNone", "before": "XBefore", "after": "XAfter"}
+
+
 def cq_sig(g):
     if g is None:
         return "None"
-    return "(sg %s %s %s)" % (CQ_KEY[g["k"]], CQ_KI[g["ki"]], cq(bool(g["c"])))
+    sh = g.get("sh")
+    if not sh:
+        return "(sg %s %s %s)" % (CQ_KEY[g["k"]], CQ_KI[g["ki"]], cq(bool(g["c"])))
+    return "(sgx %s %s %s [%s] %s [%s] %s %s)" % (
+        CQ_KEY[g["k"]], CQ_KI[g["ki"]], cq(bool(g["c"])), "; ".join(CQ_REF[t] for t in sh["refs"]), CQ_C14N[sh["c14n"]],
+        "; ".join(CQ_TR[t] for t in sh["tr"]), cq(bool(sh["obj"])), CQ_X[sh["x"]])
 
 
 def cq_step(st, o):
@@ -489,7 +1037,12 @@ def abstract_step(st):
         return ("idp", "idp", st["rs"], st["as"], st["enc"], st["b"])
 
     def ab(g):
-        return None if g is None else (g["k"], g["ki"], bool(g["c"]))
+        if g is None:
+            return None
+        sh = g.get("sh")
+        if not sh:
+            return (g["k"], g["ki"], bool(g["c"]))
+        return (g["k"], g["ki"], bool(g["c"]), tuple(sh["refs"]), sh["c14n"], tuple(sh["tr"]), sh["obj"], sh["x"])
     return (st["rw"], st["aw"], ab(st["rs"]), ab(st["as"]), st["enc"], st["b"])
 
 
@@ -503,7 +1056,8 @@ def nontrivial(case, obs):
 
 def histogram(cases, observed):
     h = {"by_tag": {}, "messages": 0, "identity": 0, "rejected": 0, "exceptions": {}, "by_binding": {}, "encrypted": 0,
-         "sequence_length": {}, "corruptions": {}, "issuer_pairs": {}, "signing_keys": {}}
+         "sequence_length": {}, "corruptions": {}, "issuer_pairs": {}, "signing_keys": {}, "shaped_signatures": 0,
+         "reference_targets": {}, "second_signature": {}, "shapes_accepted": 0}
     for c, o in zip(cases, observed):
         tag = c["tag"].split("-")[0] if c["fresh"] else c["tag"]
         h["by_tag"][tag] = h["by_tag"].get(tag, 0) + 1
@@ -524,6 +1078,13 @@ def histogram(cases, observed):
                         h["signing_keys"][g["k"]] = h["signing_keys"].get(g["k"], 0) + 1
                         if g["c"]:
                             h["corruptions"][g["c"]] = h["corruptions"].get(g["c"], 0) + 1
+                        if g.get("sh"):
+                            h["shaped_signatures"] += 1
+                            k = "+".join(g["sh"]["refs"])
+                            h["reference_targets"][k] = h["reference_targets"].get(k, 0) + 1
+                            k = str(g["sh"]["x"])
+                            h["second_signature"][k] = h["second_signature"].get(k, 0) + 1
+                            h["shapes_accepted"] += 1 if so["identity"] else 0
     return h
 
 
